@@ -9,16 +9,17 @@ LEVEL_TEXT = ("Mixed.  Proved: the integer lemmas that make Base._arg_serialize 
 EXPLANATION = LEVEL_TEXT
 TECHNIQUE = "arithmetic lemmas by z3 + contract check of BVV on the real function + bounded identity/structure comparison"
 RULE = "bounded: random annotated trees of depth <= 2 over 2 variables; distinct = distinct deep structural keys"
-FUNCTIONS = ["Base._arg_serialize (integers, tags)", "ast.bv.BVV (cache discipline)"]
+FUNCTIONS = ["Base._arg_serialize (integers, tags)", "ast.bv.BVV (cache discipline)", "Base.__new__ (hash-cons table discipline)"]
 TRUSTED = ["blake2b truncated to 64 bits does not collide", "int.to_bytes/from_bytes round trip", "z3"]
-ASSUMPTIONS = ["framing of variadic argument lists and the hash-cons table discipline of Base.__new__ are only covered by the bounded part"]
+ASSUMPTIONS = ["framing of variadic argument lists is only covered by the bounded part; the table discipline of Base.__new__ is proved for two-/three-argument nodes over the annotation universe of C07, with the table in an arbitrary state satisfying its invariant"]
 
 
 def tasks(tier, seed=0):
     from vf import common
     kl = sorted({l for f in common.findings_for("C06") for l in f.get("labels", [])})
     out = [task("vf.contracts.hashcons", "ob_int_serialization", "hashcons._arg_serialize/int-injective", ["C06"]),
-           task("vf.contracts.hashcons", "ob_bvv_cache", "hashcons.BVV/result-is-what-was-built", ["C06"])]
+           task("vf.contracts.hashcons", "ob_bvv_cache", "hashcons.BVV/result-is-what-was-built", ["C06"]),
+           task("vf.contracts.basenew", "ob_base_new_table", "hashcons.Base.__new__/table-discipline", ["C06", "C05"], tier=tier)]
     for i in range(8 if tier == "quick" else 32):
         out.append(task("vf.contracts.hashcons", "pools", f"hashcons.pools/bounded#{i}", ["C06"], kind="bounded", replay="vf.contracts.hashcons:replay_pools",
                         seed=seed * 100 + i, n=300 if tier == "quick" else 3000, budget_s=30 if tier == "quick" else 300, known_labels=kl))
